@@ -39,7 +39,8 @@ ASSUMPTIONS = [
 FLOOR = {"quick": 400, "thorough": 8000}
 
 EXTS = ["colon_fence", "strikethrough", "deflist"]
-LEAF_KINDS = ["para", "para2", "heading", "code", "target", "unknown_dir", "unknown_role", "strike", "bad_option", "dupdef"]
+LEAF_KINDS = ["para", "para2", "heading", "code", "target", "unknown_dir", "unknown_role", "strike", "bad_option", "dupdef",
+              "unref_foot"]
 TRACKED = ("block_quote", "bullet_list", "enumerated_list", "list_item", "note", "warning", "admonition", "container")
 
 _known = None
@@ -92,6 +93,10 @@ def emit(node, ctx, line0, chain, file):
             # the second definition is the duplicate: its warning belongs to its own line
             lines = [f"{m} para", "", f"[dd{m}]: https://e.org/a", "", f"[dd{m}]: https://e.org/b"]
             rec["warn_line"] = line0 + 4
+        elif k == "unref_foot":
+            # a footnote definition that nothing refers to: reported by a *transform*, long after the file was read
+            lines = [f"{m} para", "", f"[^fn{m.lower()}]: note {m}"]
+            rec["warn_line"] = line0 + 2
         ctx.leaves.append(rec)
         return lines
     if t == "seq":
@@ -282,7 +287,7 @@ def check_case(acc, tree) -> list[dict]:
         want_src = os.path.join(tmp, leaf["file"]) if leaf["file"] else src
         # --- the node
         node = None
-        if k in ("para", "para2", "unknown_role", "strike", "dupdef"):
+        if k in ("para", "para2", "unknown_role", "strike", "dupdef", "unref_foot"):
             cands = [p for p in doc.findall(nodes.paragraph) if m in p.astext() and not isinstance(p.parent, nodes.system_message)]
             node = min(cands, key=lambda p: len(p.astext())) if cands else None
         elif k == "heading":
@@ -352,6 +357,39 @@ def check_case(acc, tree) -> list[dict]:
                     sms = [s for s in doc.findall(nodes.system_message) if wkey in s.astext()]
                     if sms and sms[0].get("line") != (got[1] if got else None):
                         vs.append(mk(sig("C04:system-message-line", leaf), tree, {"line": got}, {"line": sms[0].get("line")}))
+    # --- warnings raised by transforms (the unreferenced-footnote detector): same file and line rules
+    foots = [lf for lf in ctx.leaves if lf["kind"] == "unref_foot"]
+    if foots:
+        tmp2 = tempfile.mkdtemp(prefix="verif-c04-")
+        try:
+            for name, content in ctx.files.items():
+                with open(os.path.join(tmp2, name), "w") as fh:
+                    fh.write(content)
+            src2 = os.path.join(tmp2, "main.md")
+            try:
+                _pdoc, pwarn = front.docutils_publish(text, source_path=src2, settings={"myst_enable_extensions": EXTS})
+            except Exception as exc:  # noqa: BLE001
+                return [mk(f"C04:render-raises:{type(exc).__name__}", tree, "document", f"{type(exc).__name__}: {exc}")]
+        finally:
+            shutil.rmtree(tmp2, ignore_errors=True)
+        fw = [w.replace(tmp2 + os.sep, "") for w in front.warning_lines(pwarn) if "[ref.footnote]" in w]
+        want = {}
+        for lf in foots:
+            want[(lf["file"] or "main.md", lf["warn_line"])] = lf
+        got = []
+        for w in fw:
+            mm = re.match(r"^(.*?):(\d+): ", w)
+            got.append((mm.group(1), int(mm.group(2))) if mm else (w, None))
+        for key, lf in want.items():
+            if key in got:
+                continue
+            plus1 = (key[0], key[1] + 1)
+            if lf["file"] and plus1 in got:
+                vs.append(mk("C04:included-file-lines-plus-one", tree, {"marker": lf["marker"], "at": key}, {"at": plus1}))
+            else:
+                vs.append(mk(sig("C04:warning-line:unref_foot", lf), tree, {"marker": lf["marker"], "at": key}, {"footnote_warnings": got[:6]}))
+        if len(got) != len(want):
+            vs.append(mk("C04:warning-count:unref_foot", tree, len(want), got[:8]))
     if acc is not None:
         d = depth(tree)
         hasdir = has(tree, lambda n: n["t"] == "dir")
